@@ -77,6 +77,8 @@ def blend_fn_check(prog, path):
     cache[path] = None
     b = prog.body(path)
     if b is not None and b.arg_count == 2 and not b.closure_root and b.kind in ("Fn", "AssocFn") and len(b.blocks) <= 40:
+        # the helper's own helpers (`is_opaque(colour)`, `alpha(colour)`) are expanded in place: the question is about what it computes
+        b = expand(prog, path) or b
         try:
             ps = [p for p in evaluator(b).paths(0, ()) if p.end[0] not in ("infeasible", "unreachable") and not panics(b, p)]
         except TooManyPaths:
@@ -728,7 +730,7 @@ def index_valid(ctx, bodies, q):
 
     # 7 ColorPalette::new
     pn = bodies[PAL_NEW]
-    ev, ps = paths_of(ctx, R, pn)
+    ev, ps = paths_of(ctx, R, pn, combinators=True)        # `(!colors.is_empty()).then(|| ..)` is the `if` it stands for
     if ps is not None:
         ok = bool(ps)
         some = 0
